@@ -38,18 +38,20 @@ STREAMS = ['cvt-direct', 'interleave-exhaustive', 'random-schedules', 'serial-re
 THEOREMS = [
     'refinement',
     'exactly_once',
-    'at_most_once_unconditional',
+    'no_double_completion',
     'attribution',
     'unsolicited_completes_nothing',
     'first_wins',
+    'pending_until_completed',
     'no_residue',
     'lost_leaves_nothing',
+    'no_faults',
     'reply_convention',
     'reply_convention_remote_error_iff',
     'remote_error_fields_spec',
-    'no_faults',
     'serials_distinct',
     'counter_run_properties',
+    'serial_reuse_violates',
 ]
 TRUSTED_BASE = [
     'Twisted Deferred (fires its callback chain synchronously, raises AlreadyCalledError on a second firing) and '
@@ -147,6 +149,10 @@ def tok(v):
     return 'o' + json.dumps(_norm(v), separators=(',', ':')).encode().hex()
 
 
+def _hex_or_q(x):
+    return str_hex(x) if isinstance(x, str) else '?' + tok(x)
+
+
 def rs_tok(rs):
     if rs == 'K':
         return 'K'
@@ -203,6 +209,11 @@ def patched_reply(message, kind, variant, reply_serial, own_serial):
     return raw[:8] + struct.pack('<I', own_serial) + raw[12:off] + struct.pack('<I', reply_serial) + raw[off + 4:]
 
 
+class SetupFailure(Exception):
+    """The connection could not be brought to the ready state: the Hello call - itself a remote call - was
+    not completed by its matching return."""
+
+
 class Impl:
     """One real DBusClientConnection brought to the authenticated (and, if ready, Hello-answered) state."""
 
@@ -239,7 +250,11 @@ class Impl:
             else:
                 self.conn.dataReceived(message.MethodReturnMessage(
                     self.hello_serial, signature='s', body=[':1.42']).rawMessage)
-            assert self.conn.busName == ':1.42' and self.connected == [self.conn]
+            if not (self.conn.busName == ':1.42' and self.connected == [self.conn]):
+                raise SetupFailure('Hello (serial %d) was answered by a method return with reply_serial %d carrying '
+                                   "':1.42'; busName=%r, connect Deferred fired with %r, _pendingCalls=%r"
+                                   % (self.hello_serial, self.hello_serial, self.conn.busName, self.connected,
+                                      sorted(getattr(self.conn, '_pendingCalls', {}))))
         self.reasons = {}
         self.terror = terror
         self.rec = []          # (did, 'cb'|'eb', value) for every firing of every Deferred handed out
@@ -413,8 +428,9 @@ class Impl:
                 return 'LOST %d' % n
         if isinstance(e, err.RemoteError):
             if 'values' in e.__dict__:
-                return ' '.join(['RE', str_hex(e.errName), str_hex(e.message)] + [tok(v) for v in e.values])
-            return 'SE ' + str_hex(e.errName)
+                vals = list(e.values) if isinstance(e.values, (list, tuple)) else ['<%s>' % type(e.values).__name__]
+                return ' '.join(['RE', _hex_or_q(e.errName), _hex_or_q(e.message)] + [tok(v) for v in vals])
+            return 'SE ' + _hex_or_q(e.errName)
         if isinstance(e, err.TimeOut):
             return 'TO ' + str_hex(e.args[0] if e.args and isinstance(e.args[0], str) else '?')
         if c.get('bad'):
@@ -577,6 +593,7 @@ class Monitor:
         im = self.im
         op = st.op
         expected = {}       # did -> checker(kind, val)
+        optional = {}       # did -> checker: may fire in this step, need not
         kind = op[0]
         if kind == 'hello':
             self.state[0] = 'skip'
@@ -597,13 +614,16 @@ class Monitor:
         elif kind in ('ret', 'err', 'group'):
             subs = op[1] if kind == 'group' else [op]
             for sub, serial in zip(subs, st.serials):
-                cands = [d for d in self.open_with_serial(serial) if d not in expected]
-                if len(cands) > 1:
-                    self.bad('ASSUMPTION-serials-not-distinct', 'two open calls share serial %d' % serial)
+                # the reply belongs to the call it was built for (by identity, not by looking for calls that
+                # happen to carry the same serial): nothing else may complete on it.  A reply built for no call
+                # (unsolicited, Hello's serial, a serial not yet issued) belongs to nobody.
+                who = sub[1]
+                if not isinstance(who, int):
                     continue
-                if not cands:
+                c = im.calls[who]
+                if not (self.state.get(who) == 'open' and c['er'] and not c.get('bad')) or who in expected:
                     continue
-                did = cands[0]
+                did = who
                 if sub[0] == 'ret':
                     sig, body = RET_VARIANTS[sub[2]]
                     expected[did] = (lambda k, v, did=did, sig=sig, body=body: self.expect_return(did, sig, body, k, v))
@@ -618,6 +638,13 @@ class Monitor:
                     if not (k == 'eb' and isinstance(v.value, im.error.TimeOut)):
                         self.bad('deadline-not-timeout', 'call %d: deadline passed, delivered %s' % (did, _short(k, v)))
                 expected[did] = chk
+            # timeout=0: the statement does not say whether that is "no deadline" (what the code does) or a
+            # deadline that has passed at once; a TimeOut for such a call when the clock moves is accepted
+            for z, s in self.state.items():
+                if s == 'open' and im.calls[z]['tmo'] == 'Z' and im.calls[z]['er'] and not im.calls[z].get('bad'):
+                    optional[z] = (lambda k, v, z=z: None if (k == 'eb' and isinstance(v.value, im.error.TimeOut))
+                                   else self.bad('deadline-not-timeout', 'call %d (timeout=0): delivered %s'
+                                                 % (z, _short(k, v))))
         elif kind == 'lost':
             reason = im.reason(op[1])
             for did, s in self.state.items():
@@ -636,7 +663,10 @@ class Monitor:
             self.fired[did] = self.fired.get(did, 0) + 1
             if self.fired[did] > 1:
                 self.bad('double-completion', 'call %d completed %d times' % (did, self.fired[did]))
-            if did not in expected:
+            if did in optional and did not in expected:
+                optional[did](k, v)
+                self.state[did] = 'done'
+            elif did not in expected:
                 why = 'it had already completed' if self.state.get(did) == 'done' else 'nothing addressed to it happened'
                 self.bad('completion-without-cause', 'call %d fired (%s) on %r although %s' % (did, _short(k, v), op, why))
             else:
@@ -663,6 +693,13 @@ class Monitor:
             for dc in delayed:
                 if any(a is d for a in dc.args):
                     self.bad('residue-timer', 'call %d completed but its timeout is still scheduled' % did)
+        # independent of how a timer refers to its call: there are never more timers than calls that still
+        # wait for a reply under a deadline
+        waiting = sum(1 for did, s in self.state.items() if s == 'open' and im.calls[did]['er']
+                      and not im.calls[did].get('bad') and im.calls[did]['tmo'] in ('P', 'Z'))
+        if len(delayed) > waiting:
+            self.bad('residue-timer', '%d delayed call(s) scheduled, only %d call(s) still wait under a deadline'
+                     % (len(delayed), waiting))
         if kind == 'lost':
             if pend:
                 self.bad('residue-after-loss', '_pendingCalls not empty after connectionLost: %r' % sorted(pend))
@@ -1052,7 +1089,14 @@ def process_batch(ctx, batch):
     results = []
     lines = []
     for scn in batch:
-        im, steps, problems = monitor_scenario(scn)
+        try:
+            im, steps, problems = monitor_scenario(scn)
+        except SetupFailure as e:
+            ctx.case(scn['stream'], sample=scn)
+            ctx.violation('matching-return-does-not-complete-hello', str(e),
+                          {'stream': scn['stream'], 'ready': True, 'serial0': scn.get('serial0', 1), 'ops': []},
+                          observed='connection not ready', expected='busName set, connect Deferred fired once')
+            return False
         results.append((scn, steps, problems))
         lines.append('reset %d' % (1 if scn.get('ready', True) else 0))
         for st in steps:
@@ -1081,6 +1125,7 @@ def process_batch(ctx, batch):
         if stream in ORACLE_STREAMS:
             for key, text in problems:
                 ctx.violation(key, text, scn, observed=[st.obs for st in steps], expected='see property statement')
+    return True
 
 
 def stats(ctx, scn, im, steps):
@@ -1119,18 +1164,19 @@ def run(ctx):
     from txdbus import message
     saved_serial = message.DBusMessage._nextSerial
     try:
+        run_cvt_direct(ctx)
         corpus = [c for _, c in ctx.corpus()]
         scns = [c for c in corpus if c.get('stream') in STREAMS and c.get('stream') != 'cvt-direct']
-        if scns:
-            process_batch(ctx, scns)
-        run_cvt_direct(ctx)
+        if scns and not process_batch(ctx, scns):
+            return
         for b in batches(gen_exhaustive(ctx), 4000):
-            process_batch(ctx, b)
+            if not process_batch(ctx, b):
+                return
         ctx.exhaustive = True
         n = ctx.scale(quick=2000, thorough=15000)
-        process_rand = [gen_random(ctx.rng, 12) for _ in range(n)]
-        for b in batches(process_rand, 4000):
-            process_batch(ctx, b)
+        for b in batches((gen_random(ctx.rng, 12) for _ in range(n)), 4000):
+            if not process_batch(ctx, b):
+                return
         m = ctx.scale(quick=600, thorough=6000)
         process_batch(ctx, [fix_reuse(gen_reuse(ctx.rng)) for _ in range(m)])
         process_batch(ctx, [gen_not_ready(ctx.rng) for _ in range(ctx.scale(quick=100, thorough=1000))])
